@@ -98,7 +98,6 @@ class Modified(ast.NodeVisitor):
                     self.attrs.add((b.value.id, b.attr))
                     self.stored.add(b.value.id + '.' + b.attr)
             elif isinstance(b, cnodes.CDeref) and isinstance(b.value, ast.Name):
-                self.derefs.add(b.value.id)
                 self.stored.add('*' + b.value.id)
             else:
                 self.stored.add('?')
@@ -224,13 +223,83 @@ class StmtMixin:
         self.oblige('no-raise', False, st, node, 'raise %s reachable' % name)
         raise PathEnd()
 
+    def simple_branch(self, stmts):
+        """Statements that only assign scalars (no calls, stores, control flow): such an `if` is
+        executed as conditional assignments (x = c ? e : x) instead of forking the path."""
+        for s in stmts:
+            if isinstance(s, ast.Pass):
+                continue
+            if isinstance(s, ast.If):
+                if not (self.simple_branch(s.body) and self.simple_branch(s.orelse)):
+                    return False
+                if any(isinstance(n, ast.Call) for n in ast.walk(s.test)):
+                    return False
+                continue
+            if isinstance(s, ast.Expr) and isinstance(s.value, (cnodes.CAssignExpr, cnodes.CIncDec)):
+                tgt = s.value.target
+                val = getattr(s.value, 'value', None)
+            elif isinstance(s, ast.Assign) and len(s.targets) == 1:
+                tgt, val = s.targets[0], s.value
+            elif isinstance(s, ast.AugAssign):
+                tgt, val = s.target, s.value
+            else:
+                return False
+            if not isinstance(tgt, ast.Name):
+                return False
+            if val is not None and any(isinstance(n, (ast.Call, cnodes.CAssignExpr, cnodes.CIncDec, cnodes.CStmtExpr))
+                                       for n in ast.walk(val) if isinstance(n, ast.AST)):
+                return False
+        return True
+
     def ex_If(self, node, st):
         c = truth(self.ev(node.test, st))
+        if not isinstance(c, bool) and self.mode == 'vc' and self.simple_branch(node.body) \
+                and self.simple_branch(node.orelse) and not any(isinstance(n, ast.Call) for n in ast.walk(node.test)):
+            c = z3.simplify(zbool(c))
+            if not (z3.is_true(c) or z3.is_false(c)):
+                base = dict(st.vars)
+                self.guards.append(c)
+                try:
+                    self.exec_block(node.body, st)
+                finally:
+                    self.guards.pop()
+                v_then = st.vars
+                st.vars = dict(base)
+                self.guards.append(z3.Not(c))
+                try:
+                    self.exec_block(node.orelse, st)
+                finally:
+                    self.guards.pop()
+                v_else = st.vars
+                merged = dict(v_else)
+                for k in set(v_then) | set(v_else):
+                    a, b = v_then.get(k, base.get(k)), v_else.get(k, base.get(k))
+                    if a is b:
+                        merged[k] = a
+                    elif a is None and k not in v_then:
+                        merged[k] = b
+                    elif b is None and k not in v_else:
+                        merged[k] = a
+                    else:
+                        merged[k] = self.merge_value(c, a, b, k)
+                st.vars = merged
+                return
         take = self.decide(c, st, node)
         if take:
             self.exec_block(node.body, st)
         else:
             self.exec_block(node.orelse, st)
+
+    def merge_value(self, c, a, b, name):
+        if isinstance(a, tuple) and len(a) == 2 and a[0] == 'uninit':
+            return b
+        if isinstance(b, tuple) and len(b) == 2 and b[0] == 'uninit':
+            return a
+        if isinstance(a, Ptr) and isinstance(b, Ptr):
+            if a.oid == b.oid:
+                return Ptr(a.oid, ite(c, a.off, b.off))
+            raise Unsupported('conditional assignment of pointers to different objects (%s)' % name)
+        return ite(c, a, b)
 
     def ex_Assign(self, node, st):
         v = self.ev(node.value, st)
@@ -271,6 +340,8 @@ class StmtMixin:
     # ------------------------------------------------------------------ assignment
     def assign(self, t, v, st, node):
         if isinstance(t, ast.Name):
+            if self.lang == 'c' and t.id not in st.vars and t.id in getattr(self.frame.finfo.module, 'globals', {}):
+                self.oblige('static-write', False, st, node, 'write to file-scope variable %s (not re-entrant)' % t.id)
             st.vars[t.id] = self.coerce_local(t.id, v, st, node)
         elif isinstance(t, (ast.Tuple, ast.List)):
             items = self.concrete_items(v, st) if not isinstance(v, tuple) else list(v)
@@ -381,6 +452,7 @@ class StmtMixin:
     def frame_write(self, obj, field, st, node):
         """C20 / frame conditions: a write to an object the caller handed in must be listed in
         the contract's `assigns`."""
+        self.stores_seen = getattr(self, 'stores_seen', 0) + 1
         if obj.origin != 'param' or self.spec_mode or self.frames[0].contract is None:
             return
         allowed = self.contract_assigns()
@@ -508,7 +580,13 @@ class StmtMixin:
             self.oblige('inv-entry', self.eval_spec(text, st, alias), st, node,
                         'loop %d invariant holds on entry: %s' % (k, text), detail='L%d.%d' % (k, n_))
         # ---- havoc
+        octx = getattr(self, 'omp_ctx', None)
+        if octx and octx['loop'] is node:
+            octx['mark'] = len(st.pc)
+            octx['heap0'] = set(st.heap)
         self.havoc_loop(node, st, hidden)
+        if octx and octx['loop'] is node:
+            octx['loopvar'] = zint(st.vars[octx['varname']])
         # ---- assume
         for f in extra_inv:
             st.assume(zbool(f(st)))
@@ -624,7 +702,13 @@ class StmtMixin:
             if isinstance(v, Ptr) and v.oid is not None:
                 objs.add(v.oid)
         for oid in objs:
-            st.heap[oid] = self.havoc_obj(st.heap[oid], oid)
+            o = st.heap[oid]
+            if isinstance(o, ArrObj) and o.pykind == 'cbox':
+                o2 = o.clone()
+                o2.items = [self.havoc_value(o2.items[0], (o.name or oid) + '_cell', st)]
+                st.heap[oid] = o2
+            else:
+                st.heap[oid] = self.havoc_obj(o, oid)
         for (n, a) in m.attrs:
             v = st.vars.get(n)
             if isinstance(v, (Ref, Ptr)) and v.oid is not None and isinstance(st.heap[v.oid], RecObj):
@@ -679,6 +763,16 @@ class StmtMixin:
             if v.oid is None:
                 return v
             return Ptr(v.oid, fresh('hv_' + name + '_off', IntS))
+        if isinstance(v, tuple) and len(v) == 2 and v[0] == 'uninit':
+            from .exec_c import INT_TYPES, FLOAT_TYPES, base_ctype, is_ptr_type
+            t = base_ctype(self.ctype_of(v[1]) or 'idx_t')
+            if is_ptr_type(t):
+                return Ptr(None, 0)
+            if t in FLOAT_TYPES:
+                return fresh('hv_' + name, Val)
+            x = fresh('hv_' + name, IntS)
+            st.assume(z3.And(x >= -2 ** 63, x <= 2 ** 63 - 1))
+            return x
         if isinstance(v, tuple):
             return tuple(self.havoc_value(x, '%s_%d' % (name, i), st) for i, x in enumerate(v))
         if isinstance(v, Opt):
